@@ -33,6 +33,9 @@ pub struct Scn {
     pub tags: &'static [&'static str],
     /// deviations allowed at yield / spin-marker points on top of the bound
     pub extra_yield: u32,
+    /// weak compare-and-swap operations that would succeed may fail
+    /// spuriously (one deviation each)
+    pub spurious: bool,
 }
 
 impl Scn {
@@ -49,6 +52,7 @@ impl Scn {
             horizon: 20_000,
             tags: &[],
             extra_yield: 0,
+            spurious: std::env::var("MQV_NO_SPURIOUS").is_err(),
         }
     }
 }
